@@ -16,6 +16,10 @@ pub enum Leaf {
     U16,
     U32,
     U64,
+    /// 8 bytes, align 8, not an integer
+    F64,
+    /// `std::net::IpAddr`: 17 bytes, align 1 — a size that is not a power of two
+    Ip,
     Bool,
     Tk,
     Str,
@@ -86,6 +90,9 @@ pub fn table() -> Vec<(&'static str, Glue)> {
             Decl::Enum(vec![vec![l(U64)], vec![l(U8), l(U64), l(ListTk)]]),
             Decl::Record(vec![l(U64), l(U8), l(U32), GT::User(0)]),
         ] }),
+        // sizes that are not a power of two; floats
+        ("enum-ip-then-tk", Glue { decls: vec![Decl::Enum(vec![vec![l(Ip), l(Tk)], vec![l(U8), l(Ip), l(Str)], vec![l(F64), l(Tk)], vec![l(Ip), l(U16), l(ListTk)]])] }),
+        ("record-ip-then-tk", Glue { decls: vec![Decl::Record(vec![l(Ip), l(Tk), l(U8), l(Ip), l(Str)])] }),
         // nothing to drop at all
         ("enum-scalars-only", Glue { decls: vec![Decl::Enum(vec![vec![l(U64), l(U8)], vec![l(U32)], vec![]])] }),
     ]
@@ -100,7 +107,7 @@ impl Glue {
                 if i > 0 && rng.chance(1, 4) {
                     return GT::User(rng.below(decls.len() as u64) as usize);
                 }
-                l(*rng.pick(&[U8, U16, U32, U64, U64, Bool, Tk, Tk, Str, ListTk, OptTk]))
+                l(*rng.pick(&[U8, U16, U32, U64, U64, F64, Ip, Bool, Tk, Tk, Str, ListTk, OptTk]))
             };
             if rng.chance(1, 3) {
                 let k = 1 + rng.below(6);
@@ -124,6 +131,8 @@ impl Glue {
             GT::Leaf(U16) => "u16".into(),
             GT::Leaf(U32) => "u32".into(),
             GT::Leaf(U64) => "u64".into(),
+            GT::Leaf(F64) => "f64".into(),
+            GT::Leaf(Ip) => "IpAddr".into(),
             GT::Leaf(Bool) => "bool".into(),
             GT::Leaf(Tk) => "Tk".into(),
             GT::Leaf(Str) => "String".into(),
@@ -139,6 +148,8 @@ impl Glue {
         match t {
             GT::Leaf(U8) | GT::Leaf(U16) | GT::Leaf(U32) | GT::Leaf(U64) => format!("{}", *k % 200),
             GT::Leaf(Bool) => "true".into(),
+            GT::Leaf(F64) => format!("{}.5", *k % 100),
+            GT::Leaf(Ip) => format!("10.0.0.{}", *k % 250),
             GT::Leaf(Tk) => format!("mk({k})"),
             GT::Leaf(Str) => format!("\"s{k}\""),
             GT::Leaf(ListTk) => format!("[mk({k}), mk({k})]"),
@@ -275,7 +286,8 @@ impl Glue {
                 GT::Leaf(U8) | GT::Leaf(Bool) => '1',
                 GT::Leaf(U16) => '2',
                 GT::Leaf(U32) => '4',
-                GT::Leaf(U64) => '8',
+                GT::Leaf(U64) | GT::Leaf(F64) => '8',
+                GT::Leaf(Ip) => 'i',
                 GT::Leaf(Tk) | GT::Leaf(Str) | GT::Leaf(ListTk) => 'D',
                 GT::Leaf(OptTk) => 'O',
                 GT::User(i) => match self.decls[*i] {
@@ -309,6 +321,8 @@ pub fn leaf_nums(x: Leaf) -> [u64; 4] {
         U16 => (2, 2, 0),
         U32 => (4, 4, 0),
         U64 => (8, 8, 0),
+        F64 => (8, 8, 0),
+        Ip => (size_of::<std::net::IpAddr>(), align_of::<std::net::IpAddr>(), 0),
         Tk => (size_of::<roto::Val<crate::host::Tk>>(), align_of::<roto::Val<crate::host::Tk>>(), 1),
         Str => (size_of::<roto::RotoString>(), align_of::<roto::RotoString>(), 1),
         ListTk => (
